@@ -32,30 +32,27 @@ Qed.
 (* honest sender, any schedule: delivered so far ++ still to come = the values sent, in order, once *)
 Theorem channel_roundtrip P c iv ms w sst evs os st pipe :
   prims_ok P -> length iv = blklen P ->
-  (encr c = true -> Forall (fun m => 0 <= m) ms) ->
   send_all P c iv (sstate0 c iv) ms = Some (w, sst) ->
   fed evs = w ->
   run P c iv rstate0 [] evs = (os, st, pipe) ->
   delivered os ++ stream_deliveries P c iv st pipe = ms.
 Proof.
-  intros [B ML DE EL EB] IL NN S F R.
+  intros [B ML DE EL EB] IL S F R.
   rewrite <- (frag_invariance _ _ _ _ _ _ _ B R), F.
-  rewrite (deliveries_honest P c iv iv ML DE EL EB (fun _ => eq_refl) IL ms w sst S).
-  apply (expected_nonneg P c iv IL). exact NN.
+  exact (deliveries_honest P c iv iv ML DE EL EB (fun _ => eq_refl) IL ms w sst S).
 Qed.
 
 (* ... and once the receiver has read everything and holds no complete record, all of them have been delivered *)
 Theorem roundtrip_complete P c iv ms w sst evs os st :
   prims_ok P -> length iv = blklen P ->
-  (encr c = true -> Forall (fun m => 0 <= m) ms) ->
   send_all P c iv (sstate0 c iv) ms = Some (w, sst) ->
   fed evs = w ->
   run P c iv rstate0 [] evs = (os, st, []) ->
   first_record (eff_maclen P c) (r_buf st) = None ->
   delivered os = ms.
 Proof.
-  intros OK IL NN S F R Q.
-  pose proof (channel_roundtrip P c iv ms w sst evs os st [] OK IL NN S F R) as H.
+  intros OK IL S F R Q.
+  pose proof (channel_roundtrip P c iv ms w sst evs os st [] OK IL S F R) as H.
   destruct (frag_invariant P c iv evs rstate0 [] os st [] (wf0 P c (ok_blk _ OK)) R) as [_ W].
   rewrite (settled P c iv st W Q), app_nil_r in H. exact H.
 Qed.
@@ -64,19 +61,24 @@ Qed.
 Theorem stream_roundtrip P c iv ms w sst :
   prims_ok P -> length iv = blklen P ->
   send_all P c iv (sstate0 c iv) ms = Some (w, sst) ->
-  stream_deliveries P c iv rstate0 w = expected c ms.
+  stream_deliveries P c iv rstate0 w = ms.
 Proof.
   intros [B ML DE EL EB] IL S. exact (deliveries_honest P c iv iv ML DE EL EB (fun _ => eq_refl) IL ms w sst S).
 Qed.
 
-(* refuted: "every integer accepted for sending is received" fails for negative integers on an encrypted link *)
-Theorem negative_encrypted_lost P c iv m w sst :
-  prims_ok P -> length iv = blklen P -> encr c = true -> m < 0 ->
-  send_all P c iv (sstate0 c iv) [m] = Some (w, sst) ->
-  stream_deliveries P c iv rstate0 w = [].
+(* a negative integer is refused by Send on an encrypted link (nothing written, state unchanged), so every integer
+   of an accepted sequence is non-negative there and the round trip needs no sign premise *)
+Theorem negative_encrypted_refused P c iv st m : encr c = true -> m < 0 -> send P c iv st m = None.
+Proof. intros E Hm. unfold send. rewrite E. destruct (Z.ltb_spec m 0); [reflexivity|lia]. Qed.
+
+Theorem accepted_nonnegative P c iv ms : forall st w st', encr c = true ->
+  send_all P c iv st ms = Some (w, st') -> Forall (fun m => 0 <= m) ms.
 Proof.
-  intros OK IL E Hm S. rewrite (stream_roundtrip P c iv [m] w sst OK IL S).
-  unfold expected, expect. cbn [flat_map]. rewrite E. destruct (Z.ltb_spec m 0); [reflexivity|lia].
+  induction ms as [|m r IH]; intros st w st' E H; [constructor|].
+  cbn [send_all] in H. destruct (send P c iv st m) as [[w1 st1]|] eqn:S1; [|discriminate].
+  destruct (send_all P c iv st1 r) as [[w2 st2]|] eqn:S2; [|discriminate].
+  constructor; [|eapply IH; eassumption].
+  destruct (Z.ltb_spec m 0) as [L|L]; [|exact L]. now rewrite (negative_encrypted_refused P c iv st m E L) in S1.
 Qed.
 
 (* ---- integrity --------------------------------------------------------------------------------- *)
@@ -108,11 +110,11 @@ Qed.
    encryption) followed by arbitrary bytes s *)
 Theorem stream_integrity P c iv iv' ms recs s :
   prims_ok P -> length iv = blklen P -> length iv' = blklen P -> (ctr_mode c = false -> iv' = iv) ->
-  auth c = true -> (encr c = true -> Forall (fun m => 0 <= m) ms) ->
+  auth c = true ->
   trace P c iv (sstate0 c iv) ms recs -> no_forgery P 1 recs s ->
   exists n, stream_deliveries P c iv rstate0 ((if encr c then iv' else []) ++ s) = firstn n ms.
 Proof.
-  intros [B ML DE EL EB] IL IL' IVok A NN T NF.
+  intros [B ML DE EL EB] IL IL' IVok A T NF.
   unfold stream_deliveries. cbn [rstate0 r_buf r_iv negb app]. rewrite andb_true_r.
   assert (Hch : 0 <= s_chunk (sstate0 c iv)) by (cbn; lia).
   destruct (encr c) eqn:E.
@@ -120,25 +122,23 @@ Proof.
     rewrite firstn_app, <- IL', Nat.sub_diag, firstn_all, firstn_O, app_nil_r.
     rewrite skipn_app, Nat.sub_diag, skipn_all, skipn_O. cbn [app].
     eapply (integrity_records P c iv iv ML DE EL EB (fun _ => eq_refl) A); try eassumption.
-    + rewrite E. exact NN.
-    + split; [reflexivity|]. cbn [core_of rstate0 r_hist k_hist sstate0 s_hist]. rewrite E. cbn [andb].
+    split; [reflexivity|]. cbn [core_of rstate0 r_hist k_hist sstate0 s_hist]. rewrite E. cbn [andb].
       destruct (ctr_mode c) eqn:CM; cbn [negb]; [reflexivity|]. now rewrite (IVok eq_refl).
   - eapply (integrity_records P c iv iv ML DE EL EB (fun _ => eq_refl) A); try eassumption.
-    + rewrite E. exact NN.
-    + split; [reflexivity|]. cbn [core_of rstate0 r_hist k_hist sstate0 s_hist]. rewrite E. reflexivity.
+    split; [reflexivity|]. cbn [core_of rstate0 r_hist k_hist sstate0 s_hist]. rewrite E. reflexivity.
 Qed.
 
 (* ... and through any schedule: what has been delivered is a prefix of what was sent *)
 Theorem channel_integrity P c iv iv' ms recs s evs os st pipe :
   prims_ok P -> length iv = blklen P -> length iv' = blklen P -> (ctr_mode c = false -> iv' = iv) ->
-  auth c = true -> (encr c = true -> Forall (fun m => 0 <= m) ms) ->
+  auth c = true ->
   trace P c iv (sstate0 c iv) ms recs -> no_forgery P 1 recs s ->
   fed evs = (if encr c then iv' else []) ++ s ->
   run P c iv rstate0 [] evs = (os, st, pipe) ->
   delivered os = firstn (length (delivered os)) ms.
 Proof.
-  intros OK IL IL' IVok A NN T NF F R.
-  destruct (stream_integrity P c iv iv' ms recs s OK IL IL' IVok A NN T NF) as [n Hn].
+  intros OK IL IL' IVok A T NF F R.
+  destruct (stream_integrity P c iv iv' ms recs s OK IL IL' IVok A T NF) as [n Hn].
   rewrite <- F, (frag_invariance _ _ _ _ _ _ _ (ok_blk _ OK) R) in Hn.
   eapply prefix_of_prefix. exact Hn.
 Qed.
@@ -167,7 +167,6 @@ Qed.
 
 Theorem roundtrip_eventually P c iv ms w sst evs os st pipe n os2 st2 p2 :
   prims_ok P -> length iv = blklen P ->
-  (encr c = true -> Forall (fun m => 0 <= m) ms) ->
   send_all P c iv (sstate0 c iv) ms = Some (w, sst) ->
   fed evs = w ->
   run P c iv rstate0 [] evs = (os, st, pipe) ->
@@ -175,10 +174,10 @@ Theorem roundtrip_eventually P c iv ms w sst evs os st pipe n os2 st2 p2 :
   run P c iv st pipe (repeat Call n) = (os2, st2, p2) ->
   delivered os ++ delivered os2 = ms \/ stuck st2 p2.
 Proof.
-  intros OK IL NN S F R M R2.
+  intros OK IL S F R M R2.
   pose proof (run_app P c iv evs (repeat Call n) _ _ _ _ _ _ _ _ R R2) as RA.
   assert (FA : fed (evs ++ repeat Call n) = w) by (rewrite fed_app, fed_calls, app_nil_r; exact F).
-  pose proof (channel_roundtrip P c iv ms w sst _ _ _ _ OK IL NN S FA RA) as H.
+  pose proof (channel_roundtrip P c iv ms w sst _ _ _ _ OK IL S FA RA) as H.
   destruct (eventually_settled P c iv evs os st pipe n os2 st2 p2 (ok_blk _ OK) R M R2) as [D|St]; [|now right].
   left. rewrite D, app_nil_r, delivered_app in H. exact H.
 Qed.
